@@ -766,6 +766,32 @@ func c18Generate(r *Run) {
 		r.Count(fmt.Sprintf("case:long-stream-%d", n))
 		r.NonTrivial(fmt.Sprintf("long-stream-%d", n))
 	}
+	// several graphs, each receiving more elements than the channel between the receive loop and a
+	// graph's loader holds (100), in long alternating runs: a loader must be finished (its storage
+	// transaction committed) before the next graph's loader starts — the embedded stores allow one
+	// write transaction at a time
+	for _, seg := range []int{99, 100, 101, 120, 260} {
+		c := []map[string]interface{}{{"op": "reset", "graphs": c18Strs("g1", "g2", "g3")}}
+		k := 0
+		for round := 0; round < 2; round++ {
+			for _, gname := range []string{"g1", "g2", "g1", "g3"} {
+				for i := 0; i < seg; i++ {
+					k++
+					c = append(c, map[string]interface{}{"op": "send", "g": gname, "v": c03V(fmt.Sprintf("m%05d", k), []string{"L", "M"}[k%2], nil)})
+				}
+			}
+		}
+		c = append(c, map[string]interface{}{"op": "send", "g": "g1", "v": c03V("a", "L", nil)})
+		cl := map[string]interface{}{"op": "close"}
+		for kk, v := range c18Observe {
+			cl[kk] = v
+		}
+		c = append(c, cl)
+		ops = append(ops, c...)
+		ncase++
+		r.Count("case:alternating-long-segments")
+		r.NonTrivial(fmt.Sprintf("alternating-%d", seg))
+	}
 	r.Dist["bulk_cases"] = ncase
 	ks := []int{0, 1, 2, 3, 49, 50, 51, 99, 100, 101}
 	for _, k := range ks {
